@@ -114,6 +114,11 @@ def apply_fault(fault, data, payload=None):
             if fault[1] + 2 <= len(b):
                 b[fault[1]:fault[1] + 2] = struct.pack('>H', fault[2] & 0xffff)
             return wire.ssh1_packet(t, bytes(b)), None
+        if k == 'ssh1_set_u32':
+            b = bytearray(body)
+            if fault[1] + 4 <= len(b):
+                b[fault[1]:fault[1] + 4] = struct.pack('>I', fault[2] & 0xffffffff)
+            return wire.ssh1_packet(t, bytes(b)), None
         if k == 'ssh1_append':
             return wire.ssh1_packet(t, body + j2b(fault[1])), None
         if k == 'ssh1_body':
@@ -141,6 +146,7 @@ class Server:
             'moduli_by_alg': None,     # optional: gex algorithm name -> moduli (overrides 'moduli' for that algorithm)
             'kexinit_pad': None,       # padding length of the KEXINIT packet (None = minimal)
             'faults': [],              # [what, conn_idx | '*', fault]
+            'probe_faults': None,      # {host-key name asked for by the client: fault applied to that KEXDH reply}
             'rate': 'normal',          # behaviour towards non-blocking (rate-test) connections
         }
 
@@ -180,7 +186,13 @@ class Server:
         return c
 
     def check_refusal(self, idx, nonblocking=False):
-        if nonblocking and self.rate == 'refuse':
+        self.cur_rate = self.rate
+        if nonblocking and self.rate.startswith('mixed:'):
+            # 'mixed:<k>:<behaviour>': every k-th rate-check connection is answered normally, the others get <behaviour>
+            _, k, other = self.rate.split(':', 2)
+            self.nb_seen = getattr(self, 'nb_seen', 0) + 1
+            self.cur_rate = 'normal' if self.nb_seen % int(k) == 0 else other
+        if nonblocking and self.cur_rate == 'refuse':
             self.log.append((idx, 'refused', None))
             raise ConnectionRefusedError(errno.ECONNREFUSED, 'Connection refused')
         f = self.fault_for('connect', idx)
@@ -242,8 +254,8 @@ class Conn:
         self.kex_exchanges = 0         # number of KEXDH_INIT / GEX_REQUEST seen
         self.bytes_from_client = 0
         server.log.append((idx, 'accept', {'nonblocking': nonblocking}))
-        if nonblocking and server.rate != 'normal':
-            r = server.rate
+        r = getattr(server, 'cur_rate', server.rate)      # set by check_refusal() for this very connection
+        if nonblocking and r != 'normal':
             if r == 'close':
                 self.closed_by_server = True
             elif r == 'reset':
@@ -270,10 +282,10 @@ class Conn:
         if s.spec['proto'] == 2:
             self.emit('kexinit', wire.pkt(s.kexinit, pad=s.spec.get('kexinit_pad')), s.kexinit)
 
-    def emit(self, what, data, payload=None):
+    def emit(self, what, data, payload=None, fault_override=None):
         if self.closed_by_server or self.stalled:
             return
-        f = self.server.fault_for(what, self.idx)
+        f = fault_override if fault_override is not None else self.server.fault_for(what, self.idx)
         data, after = apply_fault(f, data, payload)
         if data:
             self.out += data
@@ -335,7 +347,9 @@ class Conn:
                 self.closed_by_server = True
                 return
             p = wire.kexdh_reply(blob)
-            self.emit('kexdh_reply', wire.pkt(p), p)
+            # 'probe_faults': {host-key name the client asked for: fault} - a fault tied to one probed key type
+            pf = (srv.spec.get('probe_faults') or {}).get(self.ckey[0] if self.ckey else None)
+            self.emit('kexdh_reply', wire.pkt(p), p, fault_override=pf)
         elif t == 34:   # GEX_REQUEST
             self.kex_exchanges += 1
             if len(payload) < 13:
